@@ -127,6 +127,12 @@ pub fn menu(s: &Structure) -> Vec<Op> {
         v.push(rec(P::Admin, None, Some(vec![refundable_staker[0]]), Some("staker"), vec![]));
         // admin-forced selection naming the same transfer twice
         v.push(rec(P::Admin, None, Some(vec![refundable_staker[0], refundable_staker[0]]), None, vec![]));
+        if refundable_staker.len() >= 2 {
+            // repeated ids that are not adjacent, and a reversed selection
+            v.push(rec(P::Admin, None, Some(vec![refundable_staker[0], refundable_staker[1], refundable_staker[0]]), None, vec![]));
+            v.push(rec(P::Admin, None, Some(vec![refundable_staker[1], refundable_staker[0], refundable_staker[1], refundable_staker[0]]), None, vec![]));
+            v.push(rec(P::Admin, None, Some(vec![refundable_staker[1], refundable_staker[0]]), None, vec![]));
+        }
     }
     v.push(rec(P::Admin, None, Some(vec![4242]), None, vec![]));
     v.push(Op::FeeWithdraw { sender: P::Admin });
@@ -318,6 +324,10 @@ pub fn run_suite(suite: &str, props: &BTreeSet<String>, tier: &str, seed: u64, s
                     Verdict::Proved => e[0] += 1,
                     Verdict::Refuted(_) => e[1] += 1,
                     Verdict::Unknown(_) => e[2] += 1,
+                }
+                if !matches!(o.verdict, Verdict::Proved) && o.label.contains("SYMX") {
+                    engine_errors.push(json!({"case": c.name, "error": o.label, "decisions": r.decisions}));
+                    continue;
                 }
                 if !matches!(o.verdict, Verdict::Proved) {
                     failures.push(json!({
